@@ -174,18 +174,73 @@ func closeTo(got, want, scale float64) bool {
 }
 
 // NFan is the number of consumer topologies of weightedRoot.
-const NFan = 4
+const NFan = 7
+
+// crowdFactors: dyadic factors that sum to exactly 1 (n of them, 7 <= n <= 16).
+func crowdFactors(n int) []float64 {
+	// start from 1 and split the last factor in two until there are n
+	f := []float64{1}
+	for i := 0; len(f) < n; i++ {
+		k := i % len(f)
+		h := f[k] / 2
+		f[k] = h
+		f = append(f, h)
+	}
+	return f
+}
 
 // weightedRoot builds the scalar-free root sum_e G[e]*y[e] is back-propagated from, as a tensor
 // of y's shape whose element sum has that value. The effective upstream weighting of y is G in
-// every mode; the modes differ in how many operations consume y:
+// every mode; the modes differ in how many operations consume y and how long the path is:
 //   0  y*G
 //   1  y*(G-H) + y*H            two consumers (H = +1, -1, +1, ... : the second part sums to 0)
 //   2  y*G + (y - y)            three consumers, two of them cancelling exactly
 //   3  (1*y)*(G-H) + y*H        two consumers at different depths
+//   4  (c1*y + ... + cn*y)*G    7..16 consumers of y (dyadic c_i summing to 1), summed in a chain
+//   5  as 4, summed pairwise    (a wide, shallow graph)
+//   6  (2*(0.5*(...(y))))*G     a tail of 2*35..2*45 scalings: more than 64 operations between
+//                               y and the root
 func weightedRoot(y tensor.Tensor, shape []int, g []float64, fan int) (tensor.Tensor, error) {
 	if fan <= 0 || fan >= NFan {
 		return y.Mul(lib.MustNew(shape, g, false))
+	}
+	if fan == 6 {
+		t := y
+		for i := 0; i < 35+len(g)%11; i++ {
+			t = t.Scale(2).Scale(0.5)
+		}
+		return t.Mul(lib.MustNew(shape, g, false))
+	}
+	if fan == 4 || fan == 5 {
+		parts := []tensor.Tensor{}
+		for _, c := range crowdFactors(7 + len(g)%10) {
+			parts = append(parts, y.Scale(c))
+		}
+		var err error
+		if fan == 4 {
+			acc := parts[0]
+			for _, p := range parts[1:] {
+				if acc, err = acc.Add(p); err != nil {
+					return nil, err
+				}
+			}
+			return acc.Mul(lib.MustNew(shape, g, false))
+		}
+		for len(parts) > 1 {
+			var next []tensor.Tensor
+			for i := 0; i+1 < len(parts); i += 2 {
+				s, err := parts[i].Add(parts[i+1])
+				if err != nil {
+					return nil, err
+				}
+				next = append(next, s)
+			}
+			if len(parts)%2 == 1 {
+				next = append(next, parts[len(parts)-1])
+			}
+			parts = next
+		}
+		return parts[0].Mul(lib.MustNew(shape, g, false))
 	}
 	if fan == 2 {
 		a, err := y.Mul(lib.MustNew(shape, g, false))
@@ -215,11 +270,11 @@ func weightedRoot(y tensor.Tensor, shape []int, g []float64, fan int) (tensor.Te
 	if err != nil {
 		return nil, err
 	}
-	b, err := y.Mul(lib.MustNew(shape, h, false))
+	bb, err := y.Mul(lib.MustNew(shape, h, false))
 	if err != nil {
 		return nil, err
 	}
-	return a.Add(b)
+	return a.Add(bb)
 }
 
 func drawFan(t *rapid.T) int {
